@@ -1,6 +1,7 @@
 package gedcom
 
 import (
+	"sync"
 	"fmt"
 )
 
@@ -15,13 +16,17 @@ type DateNode struct {
 	// should not be parsed again.
 	alreadyParsed   bool
 	parsedDateRange DateRange
+
+	// Dates are read from several goroutines when individuals are compared
+	// with more than one job.
+	parseMutex sync.Mutex
 }
 
 // NewDateNode creates a new DATE node.
 func NewDateNode(value string, children ...Node) *DateNode {
 	return &DateNode{
 		newSimpleNode(TagDate, value, "", children...),
-		false, DateRange{},
+		false, DateRange{}, sync.Mutex{},
 	}
 }
 
@@ -30,6 +35,9 @@ func (node *DateNode) DateRange() (dateRange DateRange) {
 	if node == nil {
 		return NewZeroDateRange()
 	}
+
+	node.parseMutex.Lock()
+	defer node.parseMutex.Unlock()
 
 	// Parsing dates is very expensive. Cache them.
 	if node.alreadyParsed {
